@@ -9,7 +9,7 @@ def dstBytes (n : Nat) : List Nat := (List.range n).map (fun i => (i * 5 + 1) % 
 def parseCall (w : String) : Option Call :=
   match w with
   | "open-src" => some .openSrc | "fstat-src" => some .fstatSrc | "ftruncate" => some .ftruncate | "open-dst" => some .openDst
-  | "fstat-dst" => some .fstatDst | "cfr" => some .cfr | "alloc" => some .alloc | "read" => some .read | "write" => some .write
+  | "fstat-dst" => some .fstatDst | "cfr" => some .cfr | "alloc" => some .alloc | "read" => some .read | "write" => some .write | "free" => some .free
   | "fdatasync" => some .fdatasync | "close-dst" => some .closeDst | "close-src" => some .closeSrc | _ => none
 
 /-- `call#n=Ename` / `call#n=shortK` / `alloc#n=fail` -/
@@ -31,7 +31,8 @@ def step (_ : Unit) (ws : List String) : Unit × String :=
   match ws with
   | "copy" :: kind :: size :: dst :: ow :: blk :: faults =>
     let kind? : Option SrcKind := match kind with
-      | "reg" => some .regular | "dir" => some .directory | "fifo" => some .fifo | "missing" => some .missing | _ => none
+      | "reg" => some .regular | "regz" => some .regular | "dir" => some .directory | "fifo" => some .fifo | "fifo0" => some .fifo
+      | "missing" => some .missing | _ => none
     let dst? : Option Dst :=
       if dst == "absent" then some .absent
       else if dst == "same" ∨ dst == "hardlink" ∨ dst == "symlink" then some .sameAsSrc
@@ -44,7 +45,7 @@ def step (_ : Unit) (ws : List String) : Unit × String :=
       if fs.any (·.isNone) then ((), "bad-op") else
       let fl := fs.filterMap id
       let fault : Call → Nat → Option Fault := fun c i => (fl.find? (fun x => x.1 == c && x.2.1 == i)).map (·.2.2)
-      let w : World := ⟨k, srcBytes n, d, b⟩
+      let w : World := { srcKind := k, src := srcBytes n, dst := d, blk := b, sizeKnown := kind != "regz" }
       let r := copyFile w (ow == "1") fault
       let srcOk := r.st.src == srcBytes n
       let dstS := match d, r.st.dst with
